@@ -17,7 +17,9 @@ import (
 	"net/http"
 	"net/url"
 	"os"
+	"runtime"
 	"sort"
+	"strconv"
 	"strings"
 	"testing"
 	"time"
@@ -195,6 +197,10 @@ func lgPtrExpr(e ast.Expr) ast.Expr {
 		return &ast.FieldAccessExpr{Object: lgPtrExpr(x.Object), Field: x.Field, Pos: x.Pos}
 	case ast.ArrayIndexExpr:
 		return &ast.ArrayIndexExpr{Array: lgPtrExpr(x.Array), Index: lgPtrExpr(x.Index), Pos: x.Pos}
+	case ast.AsyncExpr:
+		return &ast.AsyncExpr{Body: lgPtrStmts(x.Body)}
+	case ast.AwaitExpr:
+		return &ast.AwaitExpr{Expr: lgPtrExpr(x.Expr)}
 	case ast.FunctionCallExpr:
 		out := &ast.FunctionCallExpr{Name: x.Name, Pos: x.Pos}
 		for _, a := range x.Args {
@@ -276,6 +282,7 @@ func TestVerifLangRun(t *testing.T) {
 	defer vQuiet()()
 	wd := 6 * time.Second
 	n := 0
+	repeat, _ := strconv.Atoi(os.Getenv("VERIF_LANG_REPEAT"))
 	for sc.Scan() {
 		var cs lgCase
 		if err := json.Unmarshal(sc.Bytes(), &cs); err != nil {
@@ -283,6 +290,7 @@ func TestVerifLangRun(t *testing.T) {
 		}
 		n++
 		out := map[string]interface{}{"id": cs.ID}
+		baseG := runtime.NumGoroutine()
 		src := lgModule(cs)
 		qs, qvals := lgQuery(cs)
 		module, perr := parseSource(src)
@@ -340,6 +348,26 @@ func TestVerifLangRun(t *testing.T) {
 			pr := proute
 			out[lv.name+"p"] = lgGuard(wd, func() lgObs { return lgRunVM(&pr, lv.level, qvals, true) })
 		}
+		// extra interpreter runs (scheduling perturbation for programs with async blocks)
+		if lerr == nil && repeat > 0 {
+			var extra []lgObs
+			for k := 0; k < repeat; k++ {
+				old := runtime.GOMAXPROCS([]int{1, 2, 4, 16}[k%4])
+				extra = append(extra, runInterp(interp))
+				runtime.GOMAXPROCS(old)
+			}
+			out["interpN"] = extra
+		}
+		// every goroutine a run started has ended once the run is over
+		leaked := 0
+		for w := 0; w < 1000; w++ {
+			leaked = runtime.NumGoroutine() - baseG
+			if leaked <= 0 {
+				break
+			}
+			time.Sleep(2 * time.Millisecond)
+		}
+		out["goroutines_left"] = leaked
 		// HTTP, both modes
 		nonterm := cs.Kind == "error-limit"
 		for mode := 0; mode < 2; mode++ {
